@@ -499,6 +499,40 @@ pub fn run(tier: Tier) -> i32 {
             }
         }
     }
+    // ---- stave mode with a filter on a stream of mixed detectors: the first RDH (ITS, another link) is skipped by the
+    //      filter, the selected link's packets carry another known system id (3 or 33) and an ALPIDE frame error: the
+    //      error is reported and the exit status is N (the statistics thread used to panic here: F18)
+    {
+        for sys in [3u8, 33, 32] {
+            let mut cfg = grammar::LinkCfg::ol(1, 3, false);
+            cfg.bc_step = 0x40;
+            let shapes: Vec<grammar::HbfShape> = grammar::stave_hbf_shapes(&cfg).into_iter().map(|s| s.1).collect();
+            let mut pk = grammar::render_link(&cfg, &[shapes[0].clone(), shapes[2].clone()]);
+            'f: for p in pk.iter_mut() {
+                if let Some(wi) = p.words.iter().position(|w| w.kind == grammar::WKind::Data) {
+                    let off = p.word_rel_offset(wi) as usize - 64;
+                    p.packet.payload[off + 1] ^= 0x01;
+                    break 'f;
+                }
+            }
+            let mut first = fp_model::rdh::Rdh::base();
+            first.link_id = 0;
+            first.memory_size = 64;
+            first.offset_next = 64;
+            let mut bytes = first.encode().to_vec();
+            for p in &pk {
+                let mut b = p.packet.bytes();
+                b[5] = sys;
+                bytes.extend(b);
+            }
+            for filter in [s(&["--filter-link", "1"]), s(&["--filter-fee", &cfg.fee_id.to_string()])] {
+                let mut a = s(&["check", "all", "its-stave"]);
+                a.extend(filter);
+                a.extend(s(&["-E", "7"]));
+                cases.push(Case { label: format!("stave mode, filter skips the first (ITS) RDH, selected link has system id {sys}"), input: Input::Bytes(bytes.clone()), args: a, exit: Exit::Code(7), total: None, shown: None, must_not_exist: vec![] });
+            }
+        }
+    }
     // ---- unreadable / unrecognisable input
     let text: Vec<u8> = b"hello world, this is not ALICE data, but it is longer than sixty-four bytes for sure......".to_vec();
     for (label, input) in [
